@@ -137,7 +137,8 @@ class DashTiming:
             self.elapsedTime = datetime.timedelta(days=1)
             self.availabilityStartTime -= self.elapsedTime
         if self.elapsedTime.total_seconds() < self.timeShiftBufferDepth:
-            self.timeShiftBufferDepth = int(self.elapsedTime.total_seconds())
+            # nothing is available before availabilityStartTime
+            self.timeShiftBufferDepth = max(0, int(self.elapsedTime.total_seconds()))
         logging.debug('timeShiftBufferDepth: %d seconds', self.timeShiftBufferDepth)
         default_mup = max(1, round(
             2.0 * self.stream_reference.segment_duration / self.stream_reference.timescale))
